@@ -246,12 +246,78 @@ def r16_4(chk):
     upd = g.nodes_containing(lambda x: isinstance(x, ast.Call) and norm(x.func) == "self.update_from_calculator" and x.args and norm(x.args[0]) == lc)
     ok, path = g.always_followed_by(opt[0], upd, exceptional=True, from_kinds=("n", "x"))
     chk.decide(bool(upd) and ok, "R16.4", key(m, "ParameterController.optimise", "state written back"), m.loc(opt[0].ast), f"self.update_from_calculator({lc}) in a finally", f"an exit path skips update_from_calculator: {g.show_path(path) if path else 'call missing'} -- the model keeps its pre-optimisation values")
+    # ... and what is written back is every leaf definition (the hidden partition definitions of free rate
+    # classes are leaf definitions with user_param False): the only guard allowed is the type test
+    ufc = m.func("ParameterController.update_from_calculator")
+    from .. import tables as T
+
+    found = T.reach_conditions(ufc, lambda n: isinstance(n, ast.Call) and isinstance(n.func, ast.Attribute) and n.func.attr == "update_from_calculator" and norm(n.func.value) != "self", set())
+    if not found:
+        raise AnalysisError("ParameterController.update_from_calculator: per-definition call not found")
+    atoms = set()
+    for _, cond in found:
+        atoms |= T.atoms(cond)
+    extra = {a for a in atoms if "isinstance(" not in a or "_LeafDefn" not in a}
+    chk.decide(not extra, "R16.4", key(m, "ParameterController.update_from_calculator", "every leaf definition written back"), m.loc(ufc), "guarded only by isinstance(defn, _LeafDefn)", f"the write-back is additionally guarded by {sorted(a.lstrip('?') for a in extra)}: optimised values of the excluded definitions stay in the calculator, and the likelihood function reports a value the optimiser never chose")
     made = [st for st in walk_no_nested(fn) if isinstance(st, ast.Assign) and norm(st.targets[0]) == lc and isinstance(st.value, ast.Call) and norm(st.value.func) == "self.make_calculator"]
     chk.decide(bool(made), "R16.4", key(m, "ParameterController.optimise", "calculator from self"), m.loc(fn), f"{lc} = self.make_calculator()", "the optimised calculator is not built from this controller")
-    chk.floor("R16.4", 2, "two obligations")
+    chk.floor("R16.4", 3, "three obligations")
+
+
+def _primary_keys(expr, param, module, depth=2):
+    """keys of the rule dict `param` that the expression can take its value from first"""
+    if isinstance(expr, ast.Call) and isinstance(expr.func, ast.Attribute) and expr.func.attr == "get" and norm(expr.func.value) == param and expr.args and isinstance(expr.args[0], ast.Constant):
+        return {expr.args[0].value}
+    if isinstance(expr, ast.Subscript) and norm(expr.value) == param and isinstance(expr.slice, ast.Constant):
+        return {expr.slice.value}
+    if isinstance(expr, ast.IfExp):
+        a, b = _primary_keys(expr.body, param, module, depth), _primary_keys(expr.orelse, param, module, depth)
+        return None if a is None or b is None else a | b
+    if isinstance(expr, ast.Call) and isinstance(expr.func, ast.Name) and depth > 0 and len(expr.args) == 1 and norm(expr.args[0]) == param:
+        fn = module.functions.get(expr.func.id)
+        if fn is not None:
+            p2 = params_of(fn)[0]
+            out = set()
+            for r in walk_no_nested(fn):
+                if isinstance(r, ast.Return) and r.value is not None:
+                    k = _primary_keys(r.value, p2, module, depth - 1)
+                    if k is None:
+                        return None
+                    out |= k
+            return out or None
+    return None
+
+
+def r16_5(chk):
+    chk.rule("R16.5", "nested-model initialisation: the projection (_ParamProjection.update_param_rules) writes the projected value of every rule under one key; the functions that copy a value from a null rule into a rich rule take it from that key first -- reading another key (e.g. 'value' for constant rules) picks up the un-projected number and the rich model does not start at the nested likelihood")
+    m = chk.repo.module("evolve/likelihood_function.py")
+    w = m.func("_ParamProjection.update_param_rules")
+    written = set()
+    for st in walk_no_nested(w):
+        if isinstance(st, ast.Assign) and isinstance(st.targets[0], ast.Subscript) and isinstance(st.targets[0].slice, ast.Constant) and isinstance(st.targets[0].slice.value, str) and st.targets[0].slice.value not in ("par_name",):
+            written.add(st.targets[0].slice.value)
+    if not written:
+        raise AnalysisError("update_param_rules: no key written with the projected value")
+    for q in ("update_rule_value", "extend_rule_value"):
+        fn = m.func(q)
+        reads = []
+        for st in walk_no_nested(fn):
+            if isinstance(st, ast.Assign) and isinstance(st.targets[0], ast.Subscript) and norm(st.targets[0].slice) == "val_key":
+                reads.append(st)
+        if not reads:
+            raise AnalysisError(f"{q}: assignment of the copied value not found")
+        for st in reads:
+            keys = _primary_keys(st.value, "null", m)
+            k = key(m, q, "value taken from the projected key")
+            if keys is None:
+                chk.unresolved("R16.5", k, m.loc(st), f"cannot tell which key `{norm(st.value)}` reads")
+            else:
+                chk.decide(keys <= written, "R16.5", k, m.loc(st), f"reads {sorted(keys)}; the projection writes {sorted(written)}", f"the value is taken from key(s) {sorted(keys - written)} but the projection stores the projected value under {sorted(written)}: for those rules the un-projected value of the nested model is used")
+    chk.floor("R16.5", 2, "two readers")
 
 
 def run(chk):
+    r16_5(chk)
     r16_1(chk)
     r16_2(chk)
     r16_3(chk)
